@@ -34,6 +34,15 @@ def ilog(x):
 
 
 def lookup1_values(entries, dim):
+    """largest r with r**dim <= entries"""
+    if dim >= 1 and entries > 4096:
+        # same result as the literal loop below (exact integer arithmetic), without walking up from 0: big books stay fast
+        r = max(0, int(round(entries ** (1.0 / dim))))
+        while r ** dim > entries:
+            r -= 1
+        while (r + 1) ** dim <= entries:
+            r += 1
+        return r
     r = 0
     while (r + 1) ** dim <= entries:
         r += 1
